@@ -17,6 +17,9 @@ def write_of(n):
     if k == "CtorInit" and n.get("field"):
         init = n.child("init")
         return ("this", n.get("field")), init
+    if k == "CallExpr" and n.callee and n.callee.get("uq") == "std::exchange" and len(n.args) == 2:
+        # `old = std::exchange(place, value)`: stores value into place (and yields what was there)
+        return path(n.args[0]), n.args[1]
     return None
 
 
@@ -311,8 +314,9 @@ def check_guards(ctx, unit, table):
                     detail = "%s constructor: expected final (flag, mutex calls) %s, found %s" % (
                         kind, sorted(want, key=str), sorted(outs, key=str))
                 # all fields initialised
+                # (written in the initialiser list, or through a default member initialiser `bool _is_locked = false;`)
                 inits = {n.get("field") for n in c.events() if n.kind == "CtorInit" and n.get("field")
-                         and not n.get("implicit")}
+                         and (not n.get("implicit") or n.get("init") is not None)}
                 if not c.get("delegating") and inits != {mfield, flag}:
                     ok = False
                     detail += "; does not initialise both fields (%s)" % sorted(inits)
